@@ -462,7 +462,7 @@ type Walker struct {
 	drifts   []string
 	// SamplePath is one replayed path written out (evidence sample)
 	SamplePath []string
-	errs     []error
+	errs       []error
 }
 
 func NewWalker(m *Model, ctx *vrun.Ctx) *Walker {
